@@ -174,10 +174,14 @@ type c06Check struct {
 	// evalHook, when set, evaluates a parsed line instead of it.RunIn (used by the
 	// scheduler workloads, which must not share harness state between tasks)
 	evalHook func(prog ast.Node, c *harness.Callee, env *object.Env) harness.Result
-	it       *harness.Interp
-	builtins map[object.PanObject]string
-	propsOf  map[object.PanObject][]string // per builtin prototype: own property names
-	tier     string
+	// sharedEnv/sharedNames: values created before the run in a scope that several
+	// tasks share (C06 face 3): they join the pool of every task under their own names
+	sharedEnv   *object.Env
+	sharedNames []string
+	it          *harness.Interp
+	builtins    map[object.PanObject]string
+	propsOf     map[object.PanObject][]string // per builtin prototype: own property names
+	tier        string
 }
 
 func (c *c06Check) ID() string      { return "C06" }
@@ -410,6 +414,9 @@ func (c *c06Check) Run(seed, run uint64, rec []uint32, st Stats, only *Viol) []V
 func (c *c06Check) runHist(seed, run uint64, t *tape.Tape, s *C06Stats, lines *[]c06Line) []Viol {
 	s.Histories++
 	env := object.NewEnclosedEnv(c.it.Global)
+	if c.sharedEnv != nil {
+		env = object.NewEnclosedEnv(c.sharedEnv)
+	}
 	type entry struct {
 		name string
 		val  object.PanObject
@@ -457,6 +464,12 @@ func (c *c06Check) runHist(seed, run uint64, t *tape.Tape, s *C06Stats, lines *[
 		pool = append(pool, entry{name: name, val: o, src: src})
 		s.Pooled++
 		s.TypesSeen[tag]++
+	}
+	// values shared with other tasks come first
+	for _, name := range c.sharedNames {
+		if v, ok := c.sharedEnv.Get(object.GetSymHash(name)); ok {
+			pool = append(pool, entry{name: name, val: v, src: "<shared>"})
+		}
 	}
 	// initial pool
 	nseed := 3 + t.Intn(5)
